@@ -110,6 +110,11 @@ impl AffineRepr for AffinePoint {
         }
     }
 
+    fn is_zero(&self) -> bool {
+        // Both coset members (0, 1) and (0, -1) represent the identity.
+        self.inner.x == Fq::ZERO
+    }
+
     fn generator() -> Self {
         Element::GENERATOR.into()
     }
